@@ -37,10 +37,13 @@ import (
 
 	"github.com/hyperledger/aries-framework-go/component/kmscrypto/crypto/tinkcrypto"
 	secpsubtle "github.com/hyperledger/aries-framework-go/component/kmscrypto/crypto/tinkcrypto/primitive/secp256k1/subtle"
+	"github.com/hyperledger/aries-framework-go/component/kmscrypto/doc/jose/jwk/jwksupport"
 	"github.com/hyperledger/aries-framework-go/component/kmscrypto/kms/localkms"
+	sigverifier "github.com/hyperledger/aries-framework-go/component/models/signature/verifier"
 	"github.com/hyperledger/aries-framework-go/component/storageutil/mem"
 	mockkms "github.com/hyperledger/aries-framework-go/pkg/mock/kms"
 	"github.com/hyperledger/aries-framework-go/pkg/secretlock/noop"
+	spicrypto "github.com/hyperledger/aries-framework-go/spi/crypto"
 	"github.com/hyperledger/aries-framework-go/spi/kms"
 
 	"verifharness/hx"
@@ -146,12 +149,79 @@ func coqOptRS(r, s *big.Int, ok bool) string {
 	return "(Some (" + coqBig(r) + ", " + coqBig(s) + "))"
 }
 
-func coqAlt(pos int, d byte, on bool) string {
-	if !on {
-		return "None"
+// Alt is a single-position alteration: sub (another byte at pos), ins (byte d inserted before pos), del (byte pos removed).
+type Alt struct {
+	Kind string
+	Pos  int
+	D    byte
+}
+
+func (a Alt) on() bool { return a.Kind != "" }
+
+func (a Alt) coq() string {
+	switch a.Kind {
+	case "sub":
+		return fmt.Sprintf("(SSub %d%%nat %d)", a.Pos, a.D)
+	case "ins":
+		return fmt.Sprintf("(SIns %d%%nat %d)", a.Pos, a.D)
+	case "del":
+		return fmt.Sprintf("(SDel %d%%nat)", a.Pos)
 	}
 
-	return fmt.Sprintf("(Some (%d%%nat, %d))", pos, d)
+	return "SNone"
+}
+
+// apply performs the alteration the way the model's `alter` does (positions modulo the length).
+func (a Alt) apply(b []byte) []byte {
+	o := append([]byte{}, b...)
+
+	switch a.Kind {
+	case "sub":
+		if len(o) == 0 {
+			return []byte{a.D}
+		}
+
+		q := a.Pos % len(o)
+		o[q] = differentByte(o[q], a.D)
+	case "ins":
+		q := a.Pos % (len(o) + 1)
+		o = append(append(append([]byte{}, b[:q]...), a.D), b[q:]...)
+	case "del":
+		if len(o) == 0 {
+			return o
+		}
+
+		q := a.Pos % len(o)
+		o = append(append([]byte{}, b[:q]...), b[q+1:]...)
+	}
+
+	return o
+}
+
+// edits returns the single-position alterations tried on a byte string of length n: every (full) or a sample of the
+// substitutions, plus insertions/deletions at the ends, in the middle and at random places.
+func edits(r *hx.Rng, n int, full bool) []Alt {
+	var out []Alt
+
+	for pos := 0; pos < n; pos++ {
+		if !full && r.Intn(12) != 0 && pos != 0 && pos != n-1 && pos != n/2 {
+			continue
+		}
+
+		out = append(out, Alt{"sub", pos, byte(r.Intn(255))})
+	}
+
+	for _, pos := range []int{0, n / 2, n - 1, r.Intn(n + 1)} {
+		if pos < 0 {
+			continue
+		}
+
+		out = append(out, Alt{"del", pos, 0}, Alt{"ins", pos, byte(r.Intn(256))})
+	}
+
+	out = append(out, Alt{"ins", n, byte(r.Intn(256))}, Alt{"ins", n, 0}) // appended byte
+
+	return out
 }
 
 func coqPT(t tinkpb.OutputPrefixType) string {
@@ -595,25 +665,57 @@ func splitMsgs(msg []byte) [][]byte {
 }
 
 type sigProbe struct {
-	vm         string // same | import
+	vm         string // same | import | pkv
 	okey, omsg bool
-	alt        bool
-	pos        int
-	d          byte
+	alt        Alt
+}
+
+// pkvVerify verifies with signature/verifier.PublicKeyVerifier on the exported public key bytes.
+func pkvVerify(kt string, pubRaw, msg, sig []byte) (error, bool) {
+	var sv sigverifier.SignatureVerifier
+
+	pk := &sigverifier.PublicKey{Type: "JsonWebKey2020", Value: pubRaw}
+
+	switch kt {
+	case kms.ECDSAP256DER, kms.ECDSAP256IEEEP1363:
+		sv = sigverifier.NewECDSAES256SignatureVerifier()
+	case kms.ECDSAP384DER, kms.ECDSAP384IEEEP1363:
+		sv = sigverifier.NewECDSAES384SignatureVerifier()
+	case kms.ECDSAP521DER, kms.ECDSAP521IEEEP1363:
+		sv = sigverifier.NewECDSAES521SignatureVerifier()
+	case kms.ECDSASecp256k1IEEEP1363:
+		sv = sigverifier.NewECDSASecp256k1SignatureVerifier()
+	case kms.ED25519:
+		sv = sigverifier.NewEd25519SignatureVerifier()
+	default:
+		return nil, false
+	}
+
+	if ei := ecOf(kt); ei != nil {
+		pub := parsePub(ei, pubRaw)
+		if pub == nil {
+			return fmt.Errorf("cannot parse exported public key"), true
+		}
+
+		j, err := jwksupport.JWKFromKey(pub)
+		if err != nil {
+			return err, true
+		}
+
+		pk = &sigverifier.PublicKey{Type: "JsonWebKey2020", JWK: j}
+	}
+
+	return sigverifier.NewPublicKeyVerifier(sv).Verify(pk, msg, sig), true
 }
 
 func (e *env) sigCase(kind string, ktIdx int, kt string, sk, other *sigKey, msg, sig []byte, p sigProbe, constructed bool) {
 	id, pt := primaryInfo(sk.kh)
 	ei := ecOf(kt)
 	vk := sk
+	pl := len(prefixBytes(id, pt))
 
 	if p.okey {
 		vk = other
-	}
-
-	vh := vk.pubSame
-	if p.vm == "import" {
-		vh = vk.pubImp
 	}
 
 	m := msg
@@ -621,40 +723,54 @@ func (e *env) sigCase(kind string, ktIdx int, kt string, sk, other *sigKey, msg,
 		m = append(append([]byte{}, msg...), 'x')
 	}
 
-	sg := sig
-	if p.alt {
-		sg = append([]byte{}, sig...)
-		sg[p.pos] = differentByte(sg[p.pos], p.d)
+	var err error
+
+	switch p.vm {
+	case "pkv":
+		var ok bool
+
+		err, ok = pkvVerify(kt, vk.pubRaw, m, p.alt.apply(sig[pl:]))
+		if !ok {
+			return
+		}
+	case "import":
+		err = e.verify(kt, vk.pubImp, p.alt.apply(sig), m)
+	default:
+		err = e.verify(kt, vk.pubSame, p.alt.apply(sig), m)
 	}
 
-	err := e.verify(kt, vh, sg, m)
 	acc := err == nil
-	want := !p.okey && !p.omsg && !p.alt
+	want := !p.okey && !p.omsg && !p.alt.on()
 
 	rec := &hx.Record{Kind: kind, Oracle: "ok",
-		Case:     Case{Group: "sig", KT: kt, Variant: fmt.Sprintf("%s/created=%v/okey=%v/omsg=%v/alt=%v@%d", p.vm, sk.created, p.okey, p.omsg, p.alt, p.pos)},
+		Case:     Case{Group: "sig", KT: kt, Variant: fmt.Sprintf("%s/created=%v/okey=%v/omsg=%v/alt=%s@%d", p.vm, sk.created, p.okey, p.omsg, p.alt.Kind, p.alt.Pos)},
 		Observed: map[string]interface{}{"accepted": acc, "siglen": len(sig), "prefix": coqPT(pt), "err": fmt.Sprint(err)},
-		Class:    fmt.Sprintf("sig/%s/%s/%v/%v/%v/%v/%v/%d", kt, p.vm, sk.created, p.okey, p.omsg, p.alt, acc, len(sig)),
-		Dist:     []string{"group=sig", "kt=" + kt, "verifier=" + p.vm, fmt.Sprintf("accepted=%v", acc), fmt.Sprintf("altered=%v", p.alt), fmt.Sprintf("msglen=%d", len(msg))},
+		Class:    fmt.Sprintf("sig/%s/%s/%v/%v/%v/%s/%v/%d", kt, p.vm, sk.created, p.okey, p.omsg, p.alt.Kind, acc, len(sig)),
+		Dist: []string{"group=sig", "kt=" + kt, "verifier=" + p.vm, fmt.Sprintf("accepted=%v", acc), "alt=" + p.alt.Kind,
+			fmt.Sprintf("msglen=%d", len(msg))},
 	}
 
 	if acc != want {
-		what := "accepts-forgery"
+		what := "accepts-altered"
 		if want {
 			what = "rejects-genuine"
 		}
 
 		rec.Oracle = "fail"
 		rec.Sig = fmt.Sprintf("sig:%s:%s:%s", kt, p.vm, what)
-		rec.Detail = fmt.Sprintf("%s verifier=%s created=%v otherkey=%v othermsg=%v altered=%v@%d: accepted=%v (%v), signature %d bytes prefix %s",
-			kt, p.vm, sk.created, p.okey, p.omsg, p.alt, p.pos, acc, err, len(sig), coqPT(pt))
+
+		if p.alt.Kind == "ins" && p.alt.Pos >= len(sig)-pl && p.vm == "pkv" {
+			rec.Sig = fmt.Sprintf("sig:%s:pkv:accepts-trailing-byte", kt)
+		}
+
+		rec.Detail = fmt.Sprintf("%s verifier=%s created=%v otherkey=%v othermsg=%v alteration=%s@%d: accepted=%v (%v), signature %d bytes prefix %s",
+			kt, p.vm, sk.created, p.okey, p.omsg, p.alt.Kind, p.alt.Pos, acc, err, len(sig), coqPT(pt))
 	}
 
 	// independent check of the genuine signature with math/big + crypto/ecdsa
 	rsStr := "None"
 
-	if ei != nil && !p.alt {
-		pl := len(prefixBytes(id, pt))
+	if ei != nil && !p.alt.on() {
 		r, s, ok := splitRS(ei, sig[pl:])
 		pub := parsePub(ei, sk.pubRaw)
 
@@ -672,13 +788,22 @@ func (e *env) sigCase(kind string, ktIdx int, kt string, sk, other *sigKey, msg,
 		}
 	}
 
-	vm := "VSame"
-	if p.vm == "import" {
-		vm = "VImport"
+	switch p.vm {
+	case "pkv":
+		if ei != nil {
+			rec.Coq = fmt.Sprintf("CPkv %d%%nat %s %s %s %s %s %s %s", ei.n, hx.CoqBool(ei.der), hx.CoqBool(p.okey), hx.CoqBool(p.omsg), p.alt.coq(),
+				coqBytes(sig[pl:]), rsStr, hx.CoqBool(acc))
+		}
+	default:
+		vm := "VSame"
+		if p.vm == "import" {
+			vm = "VImport"
+		}
+
+		rec.Coq = fmt.Sprintf("CSig %d%%nat %s %d %s %s %s %s %s %s %s %s", ktIdx, hx.CoqBool(sk.created), id, coqPT(pt), vm,
+			hx.CoqBool(p.okey), hx.CoqBool(p.omsg), p.alt.coq(), coqBytes(sig), rsStr, hx.CoqBool(acc))
 	}
 
-	rec.Coq = fmt.Sprintf("CSig %d%%nat %s %d %s %s %s %s %s %s %s %s", ktIdx, hx.CoqBool(sk.created), id, coqPT(pt), vm,
-		hx.CoqBool(p.okey), hx.CoqBool(p.omsg), coqAlt(p.pos, p.d, p.alt), coqBytes(sig), rsStr, hx.CoqBool(acc))
 	e.tr.Put(rec)
 }
 
@@ -724,18 +849,18 @@ func (e *env) runSig(kind string, ktIdx int, kt string, nKeys int, full bool) {
 			e.tr.Put(&hx.Record{Kind: kind, Oracle: "fail", Sig: "sig:" + kt + ":export-import", Detail: sk.impErr + other.impErr, Case: Case{Group: "sig", KT: kt}, Class: "sig/export-fail/" + kt})
 		}
 
+		if sk.pubRaw != nil && other.pubRaw != nil {
+			modes = append(modes, "pkv")
+		}
+
 		for _, vm := range modes {
 			e.sigCase(kind, ktIdx, kt, sk, other, msg, sig, sigProbe{vm: vm}, false)
 			e.sigCase(kind, ktIdx, kt, sk, other, msg, sig, sigProbe{vm: vm, okey: true}, false)
 			e.sigCase(kind, ktIdx, kt, sk, other, msg, sig, sigProbe{vm: vm, omsg: true}, false)
 
-			// single-position alterations: every position for the first key (import verifier), sampled otherwise
-			for pos := 0; pos < len(sig); pos++ {
-				if !(full && ki == 0 && vm == modes[len(modes)-1]) && r.Intn(12) != 0 && pos != 0 && pos != len(sig)-1 && pos != len(sig)/2 {
-					continue
-				}
-
-				e.sigCase(kind, ktIdx, kt, sk, other, msg, sig, sigProbe{vm: vm, alt: true, pos: pos, d: byte(r.Intn(255))}, false)
+			// single-position alterations: every position for the first key (import and pkv verifiers), sampled otherwise
+			for _, al := range edits(r, len(sig), full && ((ki == 0 && vm == "import") || (ki == 1 && vm == "pkv"))) {
+				e.sigCase(kind, ktIdx, kt, sk, other, msg, sig, sigProbe{vm: vm, alt: al}, false)
 			}
 		}
 	}
@@ -810,7 +935,9 @@ func (e *env) runSig(kind string, ktIdx int, kt string, nKeys int, full bool) {
 
 		e.sigCase(kind+"-short", ktIdx, kt, sk, sk, m, sig, sigProbe{vm: "import"}, true)
 		e.sigCase(kind+"-short", ktIdx, kt, sk, sk, m, sig, sigProbe{vm: "same"}, true)
-		e.sigCase(kind+"-short", ktIdx, kt, sk, sk, m, sig, sigProbe{vm: "import", alt: true, pos: 0, d: 0}, true)
+		e.sigCase(kind+"-short", ktIdx, kt, sk, sk, m, sig, sigProbe{vm: "pkv"}, true)
+		e.sigCase(kind+"-short", ktIdx, kt, sk, sk, m, sig, sigProbe{vm: "import", alt: Alt{"sub", 0, 0}}, true)
+		e.sigCase(kind+"-short", ktIdx, kt, sk, sk, m, sig, sigProbe{vm: "pkv", alt: Alt{"ins", len(sig), 0}}, true)
 	}
 }
 
@@ -894,7 +1021,9 @@ func hasKey(kh *keyset.Handle, id uint32) bool {
 	return false
 }
 
-func (e *env) aeadCase(kind, kt string, enc, dec *keyset.Handle, alt string, pos int, d byte, msg, aad []byte, sameLineage bool) {
+func (e *env) aeadCase(kind, kt string, enc, dec *keyset.Handle, alt string, ed Alt, msg, aad []byte, sameLineage bool) {
+	pos := ed.Pos
+
 	ct, nonce, err := e.crypto.Encrypt(msg, aad, enc)
 	if err != nil {
 		e.tr.Put(&hx.Record{Kind: kind, Oracle: "fail", Sig: "aead:" + kt + ":encrypt", Detail: err.Error(), Case: Case{Group: "aead", KT: kt}, Class: "aead/enc-fail/" + kt})
@@ -909,13 +1038,11 @@ func (e *env) aeadCase(kind, kt string, enc, dec *keyset.Handle, alt string, pos
 
 	switch alt {
 	case "cipher":
-		pos %= len(c2)
-		c2[pos] = differentByte(c2[pos], d)
-		coqAltS = fmt.Sprintf("(ACipher %d%%nat %d)", pos, d)
+		c2 = ed.apply(c2)
+		coqAltS = "(ACipher " + ed.coq() + ")"
 	case "nonce":
-		pos %= len(n2)
-		n2[pos] = differentByte(n2[pos], d)
-		coqAltS = fmt.Sprintf("(ANonce %d%%nat %d)", pos, d)
+		n2 = ed.apply(n2)
+		coqAltS = "(ANonce " + ed.coq() + ")"
 	case "aad":
 		a2 = append(append([]byte{}, aad...), 'x')
 		coqAltS = "AAad"
@@ -928,10 +1055,10 @@ func (e *env) aeadCase(kind, kt string, enc, dec *keyset.Handle, alt string, pos
 	want := alt == "" && sameLineage && hasKey(dec, id)
 
 	rec := &hx.Record{Kind: kind, Oracle: "ok",
-		Case:     Case{Group: "aead", KT: kt, Variant: fmt.Sprintf("alt=%s@%d/enc=%d keys/dec=%d keys", alt, pos, len(enc.KeysetInfo().KeyInfo), len(dec.KeysetInfo().KeyInfo))},
+		Case:     Case{Group: "aead", KT: kt, Variant: fmt.Sprintf("alt=%s/%s@%d/enc=%d keys/dec=%d keys", alt, ed.Kind, pos, len(enc.KeysetInfo().KeyInfo), len(dec.KeysetInfo().KeyInfo))},
 		Observed: map[string]interface{}{"accepted": acc, "noncelen": len(nonce), "cipherlen": len(ct), "msglen": len(msg), "err": fmt.Sprint(derr)},
-		Class:    fmt.Sprintf("aead/%s/%s/%d/%d/%v/%d", kt, alt, len(enc.KeysetInfo().KeyInfo), len(dec.KeysetInfo().KeyInfo), acc, len(msg)),
-		Dist: []string{"group=aead", "kt=" + kt, "alt=" + alt, fmt.Sprintf("accepted=%v", acc), fmt.Sprintf("enckeys=%d", len(enc.KeysetInfo().KeyInfo)),
+		Class:    fmt.Sprintf("aead/%s/%s%s/%d/%d/%v/%d", kt, alt, ed.Kind, len(enc.KeysetInfo().KeyInfo), len(dec.KeysetInfo().KeyInfo), acc, len(msg)),
+		Dist: []string{"group=aead", "kt=" + kt, "alt=" + alt + ed.Kind, fmt.Sprintf("accepted=%v", acc), fmt.Sprintf("enckeys=%d", len(enc.KeysetInfo().KeyInfo)),
 			fmt.Sprintf("deckeys=%d", len(dec.KeysetInfo().KeyInfo)), fmt.Sprintf("msglen=%d", len(msg))},
 	}
 
@@ -944,7 +1071,7 @@ func (e *env) aeadCase(kind, kt string, enc, dec *keyset.Handle, alt string, pos
 		}
 
 		rec.Oracle, rec.Sig = "fail", "aead:"+kt+":"+what
-		rec.Detail = fmt.Sprintf("%s alt=%s@%d enc keyset %v dec keyset %v: accepted=%v (%v)", kt, alt, pos, enc.KeysetInfo(), dec.KeysetInfo(), acc, derr)
+		rec.Detail = fmt.Sprintf("%s alt=%s/%s@%d enc keyset %v dec keyset %v: accepted=%v (%v)", kt, alt, ed.Kind, pos, enc.KeysetInfo(), dec.KeysetInfo(), acc, derr)
 	}
 
 	// the returned nonce is exactly the nonce of the primary's primitive (its Go constant)
@@ -1009,25 +1136,21 @@ func (e *env) runAead(kind, kt string, nLineages int, aeadTypes []string) {
 
 			for j, dec := range stages {
 				_ = j
-				e.aeadCase(kind, kt, enc, dec, "", 0, 0, msg, aad, true)
+				e.aeadCase(kind, kt, enc, dec, "", Alt{}, msg, aad, true)
 			}
 
-			e.aeadCase(kind, kt, enc, other, "otherkeys", 0, 0, msg, aad, false)
+			e.aeadCase(kind, kt, enc, other, "otherkeys", Alt{}, msg, aad, false)
 
 			dec := stages[len(stages)-1]
-			e.aeadCase(kind, kt, enc, dec, "aad", 0, 0, msg, aad, true)
+			e.aeadCase(kind, kt, enc, dec, "aad", Alt{}, msg, aad, true)
 
 			if i == 0 || li == 0 {
-				for pos := 0; pos < 24; pos++ {
-					e.aeadCase(kind, kt, enc, dec, "nonce", pos, byte(r.Intn(255)), msg, aad, true)
+				for _, al := range edits(r, 12, true) {
+					e.aeadCase(kind, kt, enc, dec, "nonce", al, msg, aad, true)
 				}
 
-				for pos := 0; pos < len(msg)+16; pos++ {
-					if len(msg) > 20 && r.Intn(10) != 0 {
-						continue
-					}
-
-					e.aeadCase(kind, kt, enc, dec, "cipher", pos, byte(r.Intn(255)), msg, aad, true)
+				for _, al := range edits(r, len(msg)+16, len(msg) <= 20) {
+					e.aeadCase(kind, kt, enc, dec, "cipher", al, msg, aad, true)
 				}
 			}
 		}
@@ -1060,7 +1183,9 @@ func (e *env) runMac(kind, kt string, nKeys int) {
 
 		id, pt := primaryInfo(kh)
 
-		probe := func(okey, odata, alt bool, pos int, d byte) {
+		probe := func(okey, odata bool, al Alt) {
+			alt, pos := al.on(), al.Pos
+
 			vh, dd, tg := kh, data, tag
 			if okey {
 				vh = okh
@@ -1071,8 +1196,7 @@ func (e *env) runMac(kind, kt string, nKeys int) {
 			}
 
 			if alt {
-				tg = append([]byte{}, tag...)
-				tg[pos] = differentByte(tg[pos], d)
+				tg = al.apply(tag)
 			}
 
 			verr := e.crypto.VerifyMAC(tg, dd, vh)
@@ -1082,9 +1206,9 @@ func (e *env) runMac(kind, kt string, nKeys int) {
 			rec := &hx.Record{Kind: kind, Oracle: "ok",
 				Case:     Case{Group: "mac", KT: kt, Variant: fmt.Sprintf("okey=%v/odata=%v/alt=%v@%d", okey, odata, alt, pos)},
 				Observed: map[string]interface{}{"accepted": acc, "taglen": len(tag)},
-				Class:    fmt.Sprintf("mac/%v/%v/%v/%v/%d", okey, odata, alt, acc, len(data)),
+				Class:    fmt.Sprintf("mac/%v/%v/%s/%v/%d", okey, odata, al.Kind, acc, len(data)),
 				Dist:     []string{"group=mac", "kt=" + kt, fmt.Sprintf("accepted=%v", acc), fmt.Sprintf("altered=%v", alt)},
-				Coq: fmt.Sprintf("CMac %d %s %s %s %s %s %s", id, coqPT(pt), hx.CoqBool(okey), hx.CoqBool(odata), coqAlt(pos, d, alt), coqBytes(tag),
+				Coq: fmt.Sprintf("CMac %d %s %s %s %s %s %s", id, coqPT(pt), hx.CoqBool(okey), hx.CoqBool(odata), al.coq(), coqBytes(tag),
 					hx.CoqBool(acc)),
 			}
 
@@ -1100,12 +1224,120 @@ func (e *env) runMac(kind, kt string, nKeys int) {
 			e.tr.Put(rec)
 		}
 
-		probe(false, false, false, 0, 0)
-		probe(true, false, false, 0, 0)
-		probe(false, true, false, 0, 0)
+		probe(false, false, Alt{})
+		probe(true, false, Alt{})
+		probe(false, true, Alt{})
 
-		for pos := 0; pos < len(tag); pos++ {
-			probe(false, false, true, pos, byte(r.Intn(255)))
+		for _, al := range edits(r, len(tag), true) {
+			probe(false, false, al)
+		}
+	}
+}
+
+// ---------- key wrapping (ECDH-ES / ECDH-1PU KW key types): wrap to the EXPORTED public key, unwrap with the handle ----------
+
+func (e *env) runKW(kind, kt string, nKeys int) {
+	a := &party{newKMS()}
+
+	fail := func(sig, detail string) {
+		e.tr.Put(&hx.Record{Kind: kind, Oracle: "fail", Sig: sig, Detail: detail, Case: Case{Group: "kw", KT: kt}, Class: "kw/fail/" + sig})
+	}
+
+	for ki := 0; ki < nKeys; ki++ {
+		r := e.rng.Fork(uint64(13000 + ki))
+
+		kid, _, err := a.kms.Create(kms.KeyType(kt))
+		if err != nil {
+			fail("kw:"+kt+":create", err.Error())
+			return
+		}
+
+		okid, _, _ := a.kms.Create(kms.KeyType(kt))
+		oh, _ := a.kms.Get(okid)
+
+		for rot := 0; rot < 3; rot++ {
+			pb, _, err := a.kms.ExportPubKeyBytes(kid)
+			if err != nil {
+				fail("kw:"+kt+":export", err.Error())
+				return
+			}
+
+			pk := &spicrypto.PublicKey{}
+			if err := json.Unmarshal(pb, pk); err != nil {
+				fail("kw:"+kt+":export-format", err.Error())
+				return
+			}
+
+			kh, err := a.kms.Get(kid)
+			if err != nil {
+				fail("kw:"+kt+":get", err.Error())
+				return
+			}
+
+			for _, xc := range []bool{false, true} {
+				cek := r.Bytes(32)
+				apu, apv := r.Bytes(8), r.Bytes(8)
+
+				var opts []spicrypto.WrapKeyOpts
+				if xc {
+					opts = append(opts, spicrypto.WithXC20PKW())
+				}
+
+				wk, err := e.crypto.WrapKey(cek, apu, apv, pk, opts...)
+				if err != nil {
+					fail("kw:"+kt+":wrap", err.Error())
+					continue
+				}
+
+				probe := func(what string, w *spicrypto.RecipientWrappedKey, h interface{}, want bool) {
+					out, uerr := e.crypto.UnwrapKey(w, h, opts...)
+					acc := uerr == nil && string(out) == string(cek)
+					rec := &hx.Record{Kind: kind, Oracle: "ok",
+						Case:     Case{Group: "kw", KT: kt, Variant: fmt.Sprintf("%s/rotations=%d/xc20p=%v", what, rot, xc)},
+						Observed: map[string]interface{}{"accepted": acc, "err": fmt.Sprint(uerr)},
+						Class:    fmt.Sprintf("kw/%s/%s/%d/%v/%v", kt, what, rot, xc, acc),
+						Trivial:  what == "genuine" && rot == 0,
+						Dist:     []string{"group=kw", "kt=" + kt, "kw=" + what, fmt.Sprintf("rotations=%d", rot), fmt.Sprintf("accepted=%v", acc)},
+					}
+
+					if acc != want {
+						w2 := "accepts-altered"
+						if want {
+							w2 = "rejects-genuine"
+						}
+
+						rec.Oracle, rec.Sig = "fail", "kw:"+kt+":"+w2
+						rec.Detail = fmt.Sprintf("%s %s after %d rotation(s) xc20p=%v: unwrap ok=%v (%v)", kt, what, rot, xc, acc, uerr)
+					}
+
+					e.tr.Put(rec)
+				}
+
+				probe("genuine", wk, kh, true)
+				probe("otherkey", wk, oh, false)
+
+				for _, al := range edits(r, len(wk.EncryptedCEK), false) {
+					w2 := *wk
+					w2.EncryptedCEK = al.apply(wk.EncryptedCEK)
+					probe("cek-"+al.Kind, &w2, kh, false)
+				}
+
+				w3 := *wk
+				w3.APU = append(append([]byte{}, apu...), 'x')
+				probe("apu", &w3, kh, false)
+
+				w4 := *wk
+				w4.APV = append(append([]byte{}, apv...), 'x')
+				probe("apv", &w4, kh, false)
+			}
+
+			nk, _, err := a.kms.Rotate(kms.KeyType(kt), kid)
+			if err != nil {
+				fail("kw:"+kt+":rotate", err.Error())
+				return
+			}
+
+			kid = nk
 		}
 	}
 }
@@ -1162,11 +1394,13 @@ func (e *env) idx(kt string) int {
 func (e *env) runGroup(kind string, c Case) {
 	switch c.Group {
 	case "sig":
-		e.runSig(kind, e.idx(c.KT), c.KT, 3, true)
+		e.runSig(kind, e.idx(c.KT), c.KT, 2, true)
 	case "aead":
 		e.runAead(kind, c.KT, 4, nil)
 	case "mac":
 		e.runMac(kind, c.KT, 2)
+	case "kw":
+		e.runKW(kind, c.KT, 1)
 	case "codec", "decode":
 		for _, cd := range codecs() {
 			if cd.name != c.Enc {
@@ -1242,7 +1476,7 @@ func main() {
 		e.runGroup("corpus:"+filepath.Base(f), cf.Case)
 	}
 
-	nCodec, nSigKeys, nLin, nMac := 40, 4, 5, 3
+	nCodec, nSigKeys, nLin, nMac := 30, 3, 4, 2
 	if args.Tier == "thorough" {
 		nCodec, nSigKeys, nLin, nMac = 600, 40, 40, 30
 	}
@@ -1266,5 +1500,11 @@ func main() {
 
 	for _, i := range macs {
 		e.runMac("mac", e.names[i], nMac)
+	}
+
+	for _, n := range []string{kms.NISTP256ECDHKW, kms.NISTP384ECDHKW, kms.NISTP521ECDHKW, kms.X25519ECDHKW} {
+		if e.idx(n) >= 0 {
+			e.runKW("kw", n, nMac)
+		}
 	}
 }
